@@ -133,6 +133,21 @@ def p1(ck: Check) -> None:
                     if slot == "network" and _network_source(ss) is not None:
                         continue  # the persisted object (or its text as a fallback), cleaned up: decided by P3
                     probs.append(f"slot `{slot}` restored from `{text(n.value)}`")
+    # ... and left as restored: nothing in __setstate__ writes into a restored object afterwards
+    for n in own_walk(ss.f.node):
+        tgt = None
+        if isinstance(n, ast.Call) and isinstance(n.func, ast.Attribute) and n.func.attr in (
+                "update", "clear", "pop", "popitem", "setdefault", "append", "extend", "remove", "insert", "sort", "reverse",
+                "add", "discard", "__setitem__", "__delitem__"):
+            tgt = n.func.value
+        elif isinstance(n, ast.Subscript) and isinstance(n.ctx, (ast.Store, ast.Del)):
+            tgt = n.value
+        elif isinstance(n, ast.AugAssign) and isinstance(n.target, ast.Attribute):
+            tgt = n.target
+        if isinstance(tgt, ast.Attribute) and text(tgt.value) == "self" and tgt.attr in saved and tgt.attr in slots \
+                and tgt.attr != "node_indices":
+            probs.append(f"line {n.lineno}: the restored `{tgt.attr}` is modified after it was restored: the unpickled diagram "
+                         f"no longer has the state that was saved")
     ck.ob("P1", ss, ss.f.node, not probs, "; ".join(probs) if probs else "every persisted slot restored from its own key",
           key="restore sources")
 
@@ -589,6 +604,20 @@ def p6(ck: Check, acc: dict[str, str]) -> None:
                   f"outside of the field's accessor: what is computed here depends on whether the value happens to be "
                   f"cached, so a reclaimed (or re-loaded) diagram can answer differently from an untouched one",
                   key=f"{e.field} read in {fm.f.name} ({k[2]} node)")
+    # ... and only the accessor ever puts a value there: a value stored from elsewhere (inherited from the parent, a
+    # cheaper approximation) is not what the accessor recomputes after the data was reclaimed
+    for fm in prog.models():
+        for e in fm.field_events():
+            if e.kind not in ("store", "create") or e.field not in cleared or e.value is None or is_none(e.value):
+                continue
+            if isinstance(e.value, ast.List) and not e.value.elts:
+                continue        # the 'nothing here' mark of the attractor fields: justified elsewhere (C01-S4, C14-R1)
+            if fm.f.qualname == acc.get(e.field):
+                continue
+            ck.ob("P6", fm, e.stmt, False,
+                  f"`{e.field}` is given the value `{text(e.value)[:50]}` outside its accessor {acc.get(e.field, '?')}: after "
+                  f"reclaim_node_data the accessor recomputes a value of its own, so a reclaimed diagram can answer differently "
+                  f"from an untouched one", key=f"{e.field} stored in {fm.f.name}")
     for k in PRESENCE_NEUTRAL:
         if k not in used:
             ck.note(f"P6: reviewed exception {k} no longer occurs")
